@@ -200,7 +200,7 @@ def exec_sut(sut, op, refs, model):
         if k == "add_pages":
             return canon_report(t.add_pages([arg(x) for x in op["lrus"]], crawled=op.get("crawled", False)))
         if k == "add_links":
-            return canon_report(t.add_links([(arg(s), arg(x)) for s, x in op["links"]]))
+            return canon_report(t.add_links([(arg(s), arg(x)) for s, x in op["links"]] * op.get("repeat", 1)))
         if k == "batch":
             data = {}
             for s, ts in op["data"]:
@@ -250,7 +250,7 @@ def exec_model(model, op, refs, observed):
         if k == "add_pages":
             return canon_model_report(model.add_pages([dec(x) for x in op["lrus"]], op.get("crawled", False))), None
         if k == "add_links":
-            return canon_model_report(model.add_links([(dec(s), dec(x)) for s, x in op["links"]])), None
+            return canon_model_report(model.add_links([(dec(s), dec(x)) for s, x in op["links"]] * op.get("repeat", 1))), None
         if k == "batch":
             return canon_model_report(model.batch([(dec(s), [dec(x) for x in ts]) for s, ts in op["data"]])), None
         if k == "create_we":
